@@ -568,8 +568,18 @@ def r30(body):
     return body[:m.start()] + _pad(m.group(0), new) + body[m.end():], 1
 
 
+@rule("R31", "E.chars().peekable() -> vx_peekable(E.chars())   [std contract: Verus cannot attach a specification to the provided trait method Iterator::peekable; the helper's contract is `the peekable iterator has the same remaining items`]")
+def r31(body):
+    return _sub(r"((?:self\s*\.\s*)?\w+(?:\s*\.\s*\w+)*)\s*\.\s*chars\s*\(\s*\)\s*\.\s*peekable\s*\(\s*\)", lambda m: "vx_peekable(%s.chars())" % "".join(m.group(1).split()), body)
+
+
+@rule("R32", "if let Some(&LIT) = E { -> if vx_opt_ref_is(E, LIT) {   [a reference pattern with a char literal matches iff E is Some(r) and *r == LIT; the helper is verified, not trusted; Verus has no reference patterns]")
+def r32(body):
+    return _sub(r"\bif\s+let\s+Some\s*\(\s*&\s*('(?:\\.|[^'\\])')\s*\)\s*=\s*([^{};]+?)\s*\{", lambda m: "if vx_opt_ref_is(%s, %s) {" % (re.sub(r"^(\w+)\s*\.\s*peek\s*\(\s*\)$", r"core::iter::Peekable::peek(&mut \1)", " ".join(m.group(2).split())), m.group(1)), body)
+
+
 # rules that are purely syntactic proof devices are applied only when a unit asks for them
-OPT_IN = {"R9", "R9b", "R15", "R17", "R21", "R22", "R24", "R25", "R25b", "R26", "R28", "R30"}
+OPT_IN = {"R9", "R9b", "R15", "R17", "R21", "R22", "R24", "R25", "R25b", "R26", "R28", "R30", "R31", "R32"}
 # std-definition rules that may fire in any extracted function without being declared by the unit (they are logged)
 FREE = {"R27", "R29"}
 
